@@ -533,6 +533,10 @@ func (c *wctx) binary(n *ast.BinaryExpr, pre *[]wbind) wval {
 		}
 	case token.EQL, token.NEQ:
 		op := map[token.Token]string{token.EQL: "=", token.NEQ: "≠"}[n.Op]
+		if a.lit && !b.lit {
+			// `"" != x` is written like `x != ""`
+			a, b = b, a
+		}
 		switch ka {
 		case "string", "int", "byte":
 			return wval{typ: "prop", expr: "(" + a.expr + " " + op + " " + b.expr + ")"}
